@@ -2222,8 +2222,13 @@ BTree_popitem(BTree* self, PyObject* args)
 
     key = BTree_minKey(self, args); /* reuse existing empty tuple. */
     if (!key) {
-        PyErr_Clear();
-        PyErr_SetString(PyExc_KeyError, "popitem(): empty BTree.");
+        /* minKey() says ValueError for an empty container; anything else
+        * (the container could not be loaded, out of memory) is passed on.
+        */
+        if (PyErr_ExceptionMatches(PyExc_ValueError)) {
+            PyErr_Clear();
+            PyErr_SetString(PyExc_KeyError, "popitem(): empty BTree.");
+        }
         return NULL;
     }
 
